@@ -5,6 +5,7 @@ Driver for C05 (process-local store): `Uniflow.Local` at yield-point granularity
         thread t (idle) begins the operation and runs to its first yield point
   run t                 thread t is released from its yield point and runs to the next one
         → y<site> | ret <value> | blocked | bad-op
+  inner t <call…>       thread t, parked inside its re-entrant store hook (y8), performs the call inline → ret <value> | blocked
   obs n                 → keys=… eager=k lazy=k hooks=k inits=… log=…   (processes 0..n-1)
 
 Values: `unit`, `v x`, `none` (Load miss / LoadOrStore error), `true`, `false`, `keys p…`.
@@ -75,6 +76,17 @@ def stepLine (st : St) : List String → St × String
         let (s2, m) := release false fuel st.s t
         ({ st with s := s2 }, showMacro s2 (st.nkeys t) m)
     | none => (st, "bad-op")
+  | "inner" :: t :: rest =>
+    -- thread t is parked inside its re-entrant store hook (site 8) and performs the call on the same
+    -- goroutine: in the model a helper thread runs it to completion while t stays where it is
+    match t.toNat?, parseCall rest with
+    | some t, some (c, n) =>
+      if yieldSite (st.s.thr t) = some 8 ∧ st.s.thr (1000 + t) = .idle then
+        match runInner false fuel (apply false st.s (.call (1000 + t) c)) (1000 + t) .tau with
+        | some (s2, e) => ({ st with s := s2 }, s!"ret {showEv s2 n e}")
+        | none => (st, "blocked")
+      else (st, "bad-op")
+    | _, _ => (st, "bad-op")
   | ["obs", n] =>
     match n.toNat? with
     | some n => (st, obs st.s n)
